@@ -215,18 +215,20 @@ AbsPosting(p) ==
      comment |-> IF Len(p.cmt) = 0 THEN "" ELSE CommentText(p.cmt[1]),
      tags |-> IF Len(p.cmt) = 0 THEN <<>> ELSE AbsTags(p.cmt[1])]
 
+Gap(st, g) == IF g = 0 THEN Lit(st, "\t", "") ELSE Sp(st, g)
 RenPosting(p) ==
     LET s0 == IF p.ind = 0 THEN Lit(Empty, "\t", "") ELSE Sp(Empty, p.ind)
         s1 == IF p.st = "" THEN s0 ELSE Sp(Lit(s0, p.st, "status"), 1)
         open  == IF p.kind = "paren" THEN "(" ELSE IF p.kind = "bracket" THEN "[" ELSE ""
         close == IF p.kind = "paren" THEN ")" ELSE IF p.kind = "bracket" THEN "]" ELSE ""
         s2 == Lit(Put(Lit(s1, open, ""), AccountsX[p.acct], "account"), close, "")
-        s3 == IF Len(p.amt) = 0 THEN s2 ELSE RenAmount(Sp(s2, p.gap), p.amt[1], "amount")
+        \* the separator between account and amount: p.gap blanks (at least two), or one TAB (p.gap = 0)
+        s3 == IF Len(p.amt) = 0 THEN s2 ELSE RenAmount(Gap(s2, p.gap), p.amt[1], "amount")
         s4 == IF Len(p.cost) = 0 THEN s3
               ELSE RenAmount(Sp(Lit(Sp(s3, 1), IF p.cost[1].total THEN "@@" ELSE "@", "operator"), 1), p.cost[1].a, "costamount")
         \* a balance assertion may follow the account directly (no amount): then two or more blanks separate them
         s5 == IF Len(p.asrt) = 0 THEN s4
-              ELSE RenAmount(Sp(Lit(Sp(s4, IF Len(p.amt) = 0 THEN p.gap ELSE 1), IF p.asrt[1].strict THEN "==" ELSE "=", "operator"), 1), p.asrt[1].a, "assertamount")
+              ELSE RenAmount(Sp(Lit(IF Len(p.amt) = 0 THEN Gap(s4, p.gap) ELSE Sp(s4, 1), IF p.asrt[1].strict THEN "==" ELSE "=", "operator"), 1), p.asrt[1].a, "assertamount")
         s6 == IF Len(p.cmt) = 0 THEN s5 ELSE RenComment(Sp(s5, 2), p.cmt[1])
     IN s6
 
@@ -235,7 +237,7 @@ PostingOK(p) ==
     /\ Len(p.amt) = 1 => AmountOK(p.amt[1])
     /\ Len(p.cost) = 1 => (AmountOK(p.cost[1].a) /\ ~p.cost[1].a.neg /\ ~p.cost[1].a.plus)
     /\ Len(p.asrt) = 1 => AmountOK(p.asrt[1].a)
-    /\ p.gap >= 2
+    /\ (p.gap >= 2 \/ p.gap = 0)
 
 (* ---- dates ----------------------------------------------------------------------------------
    choice record: [y, m, d, sep, pad] *)
